@@ -17,12 +17,12 @@ PROPS = [f"C{i:02d}" for i in range(1, 21)]
 
 def evaluate(root):
     out = {}
+    repo = Repo(root)  # one parse per tree; the checks only read it
     for pid in PROPS:
         try:
             mod = importlib.import_module(f"opfcheck.props.{pid.lower()}")
         except ModuleNotFoundError:
             continue
-        repo = Repo(root)
         code, viol, err = dry_run(pid, mod.check, repo)
         out[pid] = (code, sorted({v.rule for v in viol}), err)
     return out
@@ -56,6 +56,13 @@ def main():
             hits = {p: r for p, r in res.items() if r[0] == 1}
             errs = {p: r[2] for p, r in res.items() if r[0] == 2}
             tgt = res.get(target, (None,))[0]
+            # a defect whose demo is outside the scope of the stated property (recorded, with the reason, in meta.json
+            # as "scope_note" + "accept_ids") counts as reported when one of the properties it does break reports it
+            accept = meta.get("accept_ids") or []
+            if tgt != 1 and accept and any(res.get(a, (None,))[0] == 1 for a in accept):
+                print(f"{d}: target {target} -> CAUGHT (out of {target}'s scope, reported under {[a for a in accept if res.get(a, (None,))[0] == 1]})"
+                      f" | flagged by {{{', '.join(f'{p}:{r[1]}' for p, r in hits.items())}}}")
+                continue
             print(f"{d}: target {target} -> {'CAUGHT' if tgt == 1 else ('ERROR' if tgt == 2 else 'MISSED')}"
                   f" | flagged by {{{', '.join(f'{p}:{r[1]}' for p, r in hits.items())}}}"
                   + (f" | analysis errors {errs}" if errs else ""))
